@@ -487,6 +487,43 @@ def scml_case():
   return fn
 
 
+def rca_reduced_relations_sampled_case():
+  """NOT solver-decided (the eigen-solver is compiled numerics): RCA with n_components < d under rotation, translation, sample permutation
+  and scaling, on random dyadic data sets with generic (anisotropic) chunklets"""
+  def fn(ctx):
+    from metric_learn import RCA
+    rs = np.random.RandomState(5)
+    for trial in range(12):
+      d = 3 if trial % 2 else 4
+      n_chunks, size = 6, 3
+      A = rs.randint(-8, 9, size=(d, d)) / 4.0 + 2 * np.eye(d)
+      centers = rs.randint(-16, 17, size=(n_chunks, d)) / 2.0
+      X = np.vstack([c + (rs.randint(-8, 9, size=(size, d)) / 8.0) @ A for c in centers])
+      ch = np.repeat(np.arange(n_chunks), size)
+      extra = rs.randint(-16, 17, size=(3, d)) / 2.0          # unlabeled points (-1): must not matter
+      Xa, cha = np.vstack([X, extra]), np.concatenate([ch, [-1, -1, -1]])
+      for nc in (1, d - 1):
+        with warnings.catch_warnings():
+          warnings.simplefilter('ignore')
+          M = RCA(n_components=nc).fit(Xa, cha).get_mahalanobis_matrix()
+          th = 0.3 + trial
+          Q = np.eye(d)
+          Q[:2, :2] = [[np.cos(th), -np.sin(th)], [np.sin(th), np.cos(th)]]
+          Q = Q[rs.permutation(d)]
+          Mq = RCA(n_components=nc).fit(Xa @ Q, cha).get_mahalanobis_matrix()
+          t = rs.randint(-32, 33, size=d) / 4.0
+          Mt = RCA(n_components=nc).fit(Xa + t, cha).get_mahalanobis_matrix()
+          perm = rs.permutation(len(Xa))
+          Mp = RCA(n_components=nc).fit(Xa[perm], cha[perm]).get_mahalanobis_matrix()
+          Ms = RCA(n_components=nc).fit(Xa * 4.0, cha).get_mahalanobis_matrix()
+        sc = max(1.0, np.abs(M).max())
+        ctx.require('reduced_rca_rotation_maps_M_to_QtMQ', ctx.cond(np.allclose(Mq, Q.T @ M @ Q, atol=1e-7 * sc)), detail='trial %d nc %d' % (trial, nc))
+        ctx.require('reduced_rca_translation_invariant', ctx.cond(np.allclose(Mt, M, atol=1e-7 * sc)))
+        ctx.require('reduced_rca_permutation_invariant', ctx.cond(np.allclose(Mp, M, atol=1e-7 * sc)))
+        ctx.require('reduced_rca_scaling_by_c_divides_M_by_c2', ctx.cond(np.allclose(Ms * 16.0, M, atol=1e-7 * sc)))
+  return fn
+
+
 def cases(tier, seed):
   Q, T = ('quick', 'thorough'), ('thorough',)
   out = []
@@ -495,7 +532,12 @@ def cases(tier, seed):
   for ch, tiers in (((0, 0, 1, 1), Q), ((0, 2, 2, 0, -1), Q), ((5, 0, 5, 0), Q), ((0, 0, 1, 1, 3, 3), T)):
     out.append(case('rca_%s' % ''.join('u' if c < 0 else str(c) for c in ch), rca_case(ch, 2), FUNCS,
                     'chunk labels %s (gaps and -1 allowed), arbitrary points in R^2; translation, reversal, scaling, rotation' % (list(ch),), tiers=tiers, cost=10, validate=4))
+  out.append(case('rca_reduced_relations_sampled', rca_reduced_relations_sampled_case(), FUNCS,
+                  'RCA with n_components < d: 12 random dyadic data sets (d = 3, 4; 6 anisotropic chunklets + 3 unlabeled points) under rotation, translation, '
+                  'permutation, scaling (concrete, sampled; not solver-decided)', concrete_only=True, validate=1, cost=3))
   out.append(case('lfda_translation_0011', lfda_translation_case((0, 0, 1, 1), 2), FUNCS, 'labels [0,0,1,1], arbitrary points in R^2, arbitrary translation', cost=10, validate=4))
+  out.append(case('lfda_translation_0012_singleton_class', lfda_translation_case((0, 0, 1, 2), 1), FUNCS,
+                  'labels [0,0,1,2] (two classes with a single member), arbitrary points in R^1, arbitrary translation', cost=10, validate=4, max_paths=100000))
   out.append(case('lfda_translation_00011', lfda_translation_case((0, 0, 0, 1, 1), 1), FUNCS, 'labels [0,0,0,1,1], arbitrary points in R^1', tiers=T, cost=60, validate=4, max_paths=100000))
   for w in ('NCA', 'MLKR'):
     out.append(case('%s_translation_n3_d2_k1' % w.lower(), softmax_translation_case(w, 3, 2, 1), FUNCS,
